@@ -191,8 +191,8 @@ func families() []family {
 			}},
 		{name: "keywords-mixed", doc: "n statements with mixed-case keywords", bytesPer: 30,
 			gen: func(n int) string { return rep(n, "Select a From t Where a Is Null", ";\n") }},
-		{name: "token-limit", doc: "statement list whose token count reaches MaxTokens+1 at the last size (rejected)", bytesPer: 2, thoroughOnly: true,
-			gen:   func(n int) string { return "SELECT " + rep((n-1)/2, "c", ",") + "," },
+		{name: "token-limit", doc: "SELECT DISTINCT c,c,... FROM t with exactly n tokens; the last size is MaxTokens+1 (rejected by the token limit)", bytesPer: 2, thoroughOnly: true,
+			gen:   func(n int) string { return "SELECT DISTINCT " + rep((n-3)/2, "c", ",") + " FROM t" },
 			sizes: func(bool) []int { return []int{62501, 125001, 250001, 500001, 1000001} }},
 	}
 }
